@@ -117,6 +117,8 @@ pub struct Program {
     pub maxsteps: u64,
     pub tickp: u32,
     pub spuriousp: u32,
+    /// flavour of the handles every thread starts with: (senders async, receivers async); `flav=ss|sa|as|aa`, default `ss`
+    pub flav: (bool, bool),
     /// PCT change points are drawn from steps `1..=pctlen`
     pub pctlen: u64,
     /// op texts per logical thread
@@ -136,6 +138,7 @@ impl Program {
             maxsteps: 200_000,
             tickp: 10,
             spuriousp: 0,
+            flav: (false, false),
             pctlen: 200,
             threads: vec![],
             schedule: VecDeque::new(),
@@ -194,6 +197,13 @@ impl Program {
             "maxsteps" => self.maxsteps = num(v)?,
             "tickp" => self.tickp = num(v)? as u32,
             "spuriousp" => self.spuriousp = num(v)? as u32,
+            "flav" => {
+                let b = v.as_bytes();
+                if b.len() != 2 || !b.iter().all(|c| *c == b's' || *c == b'a') {
+                    return Err(format!("bad flav `{}`", v));
+                }
+                self.flav = (b[0] == b'a', b[1] == b'a');
+            }
             "pctlen" => self.pctlen = num(v)?.max(1),
             "schedule" => self.schedule = parse_schedule(&v.replace(',', " "))?,
             _ => return Err(format!("unknown key `{}`", k)),
